@@ -4,8 +4,10 @@
 (* optionally given its own logger and / or its own trace id and a name    *)
 (* from a family that includes the empty name and names containing         *)
 (* %-formatting characters.  Every log call made through the context -     *)
-(* and the "Started..." / "...finished" lines of the scopes themselves -   *)
-(* is one action whose observation is the line that reached a handler:     *)
+(* is one action whose observation is the line that reached a handler      *)
+(* (entering a scope is observed through a probe line logged right after   *)
+(* entering; the library's own lifecycle lines are not part of the         *)
+(* property and are ignored):                                              *)
 (* which logger, which level, which trace id, which scope identifier,      *)
 (* which text.                                                             *)
 (* Loggers, trace ids and identifiers are named by the scope that          *)
@@ -67,10 +69,10 @@ Open(t, lab, ownlog, owntrace) ==
      /\ saved' = [saved EXCEPT ![s] = cur[t]]
      /\ cur' = [cur EXCEPT ![t] = s]
      /\ stack' = [stack EXCEPT ![t] = Append(@, s)]
-     /\ obs' = LineOf(s, "info", "started", FALSE)
+     /\ obs' = LineOf(s, "info", "noargs", FALSE)     \* the probe logged through the new scope
   /\ UNCHANGED alive
 
-(* leaving the innermost scope logs "...finished after" through that scope *)
+(* leaving the innermost scope (nothing is logged by the environment) *)
 Close(t) ==
   /\ Op /\ alive[t] = "run" /\ stack[t] # <<>>
   /\ LET s == stack[t][Len(stack[t])] IN
@@ -78,7 +80,7 @@ Close(t) ==
      /\ cur' = [cur EXCEPT ![t] = saved[s]]
      /\ stack' = [stack EXCEPT ![t] = SubSeq(@, 1, Len(@) - 1)]
      /\ UNCHANGED <<par, label, lg, tr, saved, alive>>
-     /\ obs' = LineOf(s, "info", "finished", FALSE)
+     /\ obs' = NoLine
 
 (* a log call through the context: level x text form x optional exception *)
 Log(t, lvl, text, exc) ==
